@@ -229,12 +229,12 @@ def slice2 : Nat → Node → Option Node → Option Node → Option Node → EM
     | some none => panicE "slice obj type assertion"
     | some (some len) =>
       if (len : Int) ≥ 4611686018427387904 then outOfFuel else
-      -- in v2 a present bound must be an integer (a nil-valued bound is an error, not "omitted")
+      -- a present bound must be an integer; a nil-valued bound counts as omitted (as in v1)
       let bound (x : Option TV) (e : Option Node) (what : String) : EM (Option Int) :=
         match x with
         | none => pure none
         | some tv =>
-          if tv.t = .invalid then pure none
+          if tv.t = .invalid || tv.t = .nil then pure none
           else if tv.t ≠ .int then runErr ((e.map Node.start).getD Pos.invalid) (what ++ "-not-int")
           else pure (some tv.v.toI64)
       let stepI ← bound pv sp "step"
